@@ -575,8 +575,10 @@ class BlockUploadStream(io.RawIOBase):
         request[1] = self._ackseq
         request[2] = self.blksize
         self.sdo_client.send_request(request)
-        if self._ackseq == self.blksize:
-            self._ackseq = 0
+        # The server starts a new sub-block after every acknowledgement, whether
+        # it confirms a complete sub-block or requests a retransmission, and
+        # numbers its segments from 1 again
+        self._ackseq = 0
 
     def _end_upload(self):
         response = self.sdo_client.read_response()
